@@ -200,7 +200,7 @@ ASSUMPTIONS = [
 # E3: grammar-directed valid scripts and their single-token edits (mc/validgen.py)
 
 
-def valid_tasks(tier, seed, oracles, post=None, with_edits=True, layouts=(), base_layout="space", edit_layouts=()):
+def valid_tasks(tier, seed, oracles, post=None, with_edits=True, layouts=(), base_layout="space", edit_layouts=(), bare_edits=False):
     from mc import validgen as G
 
     tasks = []
@@ -221,7 +221,7 @@ def valid_tasks(tier, seed, oracles, post=None, with_edits=True, layouts=(), bas
     if with_edits:
         parts = 16 if tier == "quick" else 48
         for i in range(parts):
-            tasks.append(dict(base, kind="edits", part=i, parts=parts, rich=(tier != "quick")))
+            tasks.append(dict(base, kind="edits", part=i, parts=parts, rich=(tier != "quick"), bare=bare_edits))
     return tasks
 
 
@@ -271,8 +271,14 @@ def valid_task(t):
     viols = []
     nvalid = 0
     distinct = set()
-    for w in _valid_words(t):
-        word = (() if t["kind"] == "requires" else G.PREFIX) + tuple(w)
+    def words_of(t):
+        for w in _valid_words(t):
+            yield w, False
+            if t.get("bare") and t["kind"] == "edits":
+                yield w, True  # the same edit without the require line in front: the edited tokens are the first ones of the script
+
+    for w, bare in words_of(t):
+        word = (() if (t["kind"] == "requires" or bare) else G.PREFIX) + tuple(w)
         case = E.execute(word, want_config=str(t.get("post")).startswith("c18suffix"), layout=t.get("base_layout", "space"))
         st.executions += 1
         st.transitions += 1
